@@ -201,6 +201,12 @@ def binop(ex, st, op, a, b, node=None):
         n = b.conc()
         if n is not None and a.concrete:
             return [(st, VSeq(a.items * n, kind=a.kind))]
+        if a.concrete and len(a.items) == 1 and isinstance(b, VInt):
+            # [item] * n: n copies of the item (none for n <= 0)
+            item = a.items[0]
+            r = VSeq(length=z3.If(b.t > 0, b.t, z3.IntVal(0)), elem=lambda i, _it=item: _it, kind=a.kind)
+            r.rep_of = (item, b.t)
+            return [(st, r)]
         if not st.spec:
             ex.used_stubs.add('list * unknown count: an unknown list (used for SQL placeholder lists only)')
             return [(st, VOpaque(name='repeated'))]
@@ -1679,6 +1685,11 @@ def str_m_join(ex, st, selfv, args, kwargs, node):
     for s2, sq in outs:
         if isinstance(sq, Raised):
             res.append((s2, sq))
+            continue
+        if not sq.concrete and getattr(sq, 'rep_of', None) is not None and isinstance(sq.rep_of[0], VStr):
+            # sep.join([item] * n): a function of separator, item and count (uninterpreted; enough to compare counts)
+            f = z3.Function('str_join_rep', z3.StringSort(), z3.StringSort(), z3.IntSort(), z3.StringSort())
+            res.append((s2, VStr(f(selfv.t, sq.rep_of[0].t, sq.rep_of[1]), isbytes=selfv.isbytes)))
             continue
         if not sq.concrete:
             if st.spec:
